@@ -1,12 +1,35 @@
-(* C14 Cancellation safety. Statements only. *)
-Require Import Pearl.Base.Prelude Pearl.Storage.Model Pearl.Storage.Spec Pearl.Storage.Cancel Pearl.Storage.CancelProofs.
+(* C14 Cancellation safety. Statements only.
+
+   "Dropping the future of any public operation at any suspension point leaves the storage consistent: no other
+    key is affected, later operations work, and the cancelled operation has either taken effect entirely or not
+    at all -- at the latest from the next start."
+
+   The states a dropped future may leave are `cancel_outcomes K cfg s o` (Storage/Cancel.v), defined from the
+   suspension points of the code for write, delete, close_active, restore_active, create_active, the reads and
+   the counters; "not started" (= s) and "completed" (= fst (step K cfg s o)) are among them.
+
+   Verdict: (A) (B) (C) hold for every outcome of every public operation. (D) a write that did not complete is
+   not there at all in the session; on disk it is entirely there, and a start that regenerates the index sees it;
+   REFUTED for a start after a regular close (finding F18: the dumped index hides the record). (E) a delete that
+   did not complete has written its marker to a subset of the blobs; every read of the key nevertheless answers
+   as before the delete or as after the completed delete. *)
+Require Import Pearl.Base.Prelude Pearl.Storage.Model Pearl.Storage.Spec Pearl.Storage.Inv Pearl.Storage.InvProofs
+               Pearl.Storage.NoHarmProofs Pearl.Storage.Theorems Pearl.Storage.Cancel Pearl.Storage.CancelProofs.
 
 Require Pearl.Generated.Facts.
+
+(* ================= the first model: a write dropped while its append is in flight ================= *)
+
 (* a write dropped while its append is in flight never disturbs other keys (any state, any record) *)
 Theorem C14_other_keys_untouched :
   forall (s : storage) (r : rec) (k : N),
     r_key r <> k -> of_key k (abs (cancel_write_midway s r)) = of_key k (abs s).
 Proof. exact cancel_keeps_other_keys. Qed.
+
+(* the state of the examples is an outcome in the sense of cancel_outcomes *)
+Theorem C14_example_is_an_outcome :
+  cancel_outcomes 4 c_cfg (reach 4 c_cfg [OOpen false; OWrite 1 7 None 8 5 1]) (OWrite 2 7 None 8 5 9001) c_state.
+Proof. exact c_state_is_outcome. Qed.
 
 (* "not at all" within the session; "entirely" from the next start when the session ends without close *)
 Theorem C14_invisible_in_session : get_latest_entry c_state 2 None = NotFound.
@@ -22,6 +45,171 @@ Theorem C14_all_or_nothing_at_next_start_refuted :
   get_latest_entry (fst (run 4 c_cfg c_state [OClose; OOpen false; OClose; ORmIndex 0; OOpen false])) 2 None = Found c_rec.
 Proof. exact cancelled_write_surfaces_only_after_index_removal. Qed.
 
+(* ================= every public operation, every suspension point ================= *)
+
+(* (A) No other key is affected: for every key k that is not the key of the operation (for close_active,
+   restore_active, create_active, the reads and the counters: for every key), the records of k in the log and the
+   answer to every read of k (with or without metadata) are what they were. *)
+Theorem C14_A_no_other_key_affected :
+  forall (K : N) (cfg : config) (s : storage) (o : op) (s' : storage) (k : N),
+    BlobsOk K s -> s_open s = true ->
+    cancel_outcomes K cfg s o s' -> op_key o <> Some k ->
+    of_key k (abs s') = of_key k (abs s) /\
+    (forall meta : option N, get_latest_entry s' k meta = get_latest_entry s k meta).
+Proof. exact cancel_other_keys. Qed.
+
+(* (B) Nothing stored is harmed: every blob is still there, with its id, and its records are a prefix of its
+   records now (`good` also says: the next blob id did not decrease, new blobs have fresh ids). *)
+Theorem C14_B_nothing_harmed :
+  forall (K : N) (cfg : config) (s : storage) (o : op) (s' : storage),
+    BlobsOk K s -> s_open s = true -> cancel_outcomes K cfg s o s' -> good s s'.
+Proof. exact cancel_no_harm. Qed.
+
+Theorem C14_B_append_only :
+  forall (K : N) (cfg : config) (s : storage) (o : op) (s' : storage) (b : blob),
+    BlobsOk K s -> s_open s = true -> cancel_outcomes K cfg s o s' -> In b (blobs_in_order s) ->
+    exists b', In b' (blobs_in_order s') /\ b_id b' = b_id b /\ prefix_of (b_recs b) (b_recs b').
+Proof. exact cancel_append_only. Qed.
+
+(* (C) Later operations work: the index of the active blob is still in memory, the worker is as alive as it was,
+   the blob ids are still ordered and below the next id, the storage is still open ... *)
+Theorem C14_C_later_operations_work :
+  forall (K : N) (cfg : config) (s : storage) (o : op) (s' : storage),
+    BlobsOk K s -> s_open s = true -> cancel_outcomes K cfg s o s' ->
+    (ActiveInMemory s -> ActiveInMemory s') /\ s_alive s' = s_alive s /\ (IdsOk s -> IdsOk s') /\ s_open s' = true.
+Proof. exact cancel_later_ops. Qed.
+
+(* ... hence no later operation is answered with the index error, every later write is acknowledged ... *)
+Theorem C14_C_no_index_error_afterwards :
+  forall (K : N) (cfg : config) (s : storage) (o : op) (s' : storage) (o2 : op),
+    BlobsOk K s -> ActiveInMemory s -> s_open s = true -> cancel_outcomes K cfg s o s' ->
+    snd (step K cfg s' o2) <> RErr EIndex.
+Proof. exact cancel_then_no_index_error. Qed.
+
+Theorem C14_C_write_acknowledged_afterwards :
+  forall (K : N) (cfg : config) (s : storage) (o : op) (s' : storage) (k ts : N) (meta : option N) (msize dlen dseed : N),
+    BlobsOk K s -> ActiveInMemory s -> s_open s = true -> cancel_outcomes K cfg s o s' ->
+    snd (step K cfg s' (OWrite k ts meta msize dlen dseed)) = RUnit.
+Proof. exact cancel_then_write_acknowledged. Qed.
+
+(* ... and a restore_active dropped after it loaded the index gives, when called again, the state the first call
+   would have given *)
+Theorem C14_C_restore_retry :
+  forall (K : N) (s s' : storage), restore_partial K s s' -> fst (restore_active K s') = fst (restore_active K s).
+Proof. exact restore_retry_completes. Qed.
+
+(* (A) + (B) + (C) for a state that satisfies the invariants, and after every history *)
+Theorem C14_cancellation_safety :
+  forall (K : N) (cfg : config) (s : storage) (o : op) (s' : storage),
+    Inv K s -> ActiveInMemory s -> s_open s = true -> cancel_outcomes K cfg s o s' ->
+    (forall k, op_key o <> Some k ->
+       of_key k (abs s') = of_key k (abs s) /\ forall meta, get_latest_entry s' k meta = get_latest_entry s k meta) /\
+    good s s' /\
+    ActiveInMemory s' /\ s_alive s' = s_alive s /\ IdsOk s' /\ s_open s' = true.
+Proof. exact cancel_safety. Qed.
+
+Theorem C14_cancellation_safety_after_every_history :
+  forall (K : N) (cfg : config) (ops : list op) (o : op) (s' : storage),
+    s_open (reach K cfg ops) = true -> cancel_outcomes K cfg (reach K cfg ops) o s' ->
+    (forall k, op_key o <> Some k ->
+       of_key k (abs s') = of_key k (abs (reach K cfg ops)) /\
+       forall meta, get_latest_entry s' k meta = get_latest_entry (reach K cfg ops) k meta) /\
+    good (reach K cfg ops) s' /\
+    ActiveInMemory s' /\ s_alive s' = s_alive (reach K cfg ops) /\ IdsOk s' /\ s_open s' = true.
+Proof. exact reach_cancel_safety. Qed.
+
+(* ================= (D) the cancelled write ================= *)
+
+(* the log is the old log, or the old log with the record at its end (the end of the active blob) *)
+Theorem C14_D_write_log :
+  forall (K : N) (cfg : config) (s : storage) (k ts : N) (meta : option N) (msize dlen dseed : N) (s' : storage),
+    s_open s = true -> cancel_outcomes K cfg s (OWrite k ts meta msize dlen dseed) s' ->
+    abs s' = abs s \/ abs s' = abs s ++ [mk_rec k ts false meta msize dlen dseed].
+Proof. exact cancelled_write_log. Qed.
+
+(* "not at all" in the session: in every state strictly between "not started" and "completed" every read -- of the
+   key of the write too -- answers as before *)
+Theorem C14_D_write_not_at_all_in_session :
+  forall (K : N) (cfg : config) (s : storage) (k ts : N) (meta : option N) (msize dlen dseed : N) (s' : storage),
+    partial_outcomes K cfg s (OWrite k ts meta msize dlen dseed) s' ->
+    forall (k' : N) (meta' : option N), get_latest_entry s' k' meta' = get_latest_entry s k' meta'.
+Proof. exact cancelled_write_session. Qed.
+
+(* "entirely" on disk: the files of the cancelled write are the files of the completed write, so a start that
+   reads the blob as the session left it (no index dump in between) finds the write ... *)
+Theorem C14_D_write_same_files :
+  forall (K : N) (b : blob) (r : rec),
+    blob_from_file K (append_unindexed b r) = blob_from_file K (fst (blob_append b r)).
+Proof. exact unindexed_same_files. Qed.
+
+(* ... its index being regenerated from the records, the new one included (the index file, if any, describes a
+   strict prefix of the blob file and is rejected) *)
+Theorem C14_D_write_entirely_once_regenerated :
+  forall (K : N) (b : blob) (r : rec),
+    blob_ok K b ->
+    b_recs (blob_from_file K (append_unindexed b r)) = b_recs b ++ [r] /\
+    b_idx (blob_from_file K (append_unindexed b r)) = index_of (b_recs b ++ [r]) /\
+    b_idx (blob_from_file K (append_unindexed b r)) = imap_push (b_idx b) r.
+Proof. exact unindexed_regenerated. Qed.
+
+(* finding F18 in general: when the blob is dumped first (Storage::close), the index file lacks the record but
+   records the size of the file that contains it, and the next start trusts it: the record stays hidden *)
+Theorem C14_D_F18_dump_hides_the_record :
+  forall (K : N) (b : blob) (r : rec),
+    b_ondisk b = false -> b_idx b <> [] ->
+    b_recs (blob_from_file K (blob_dump K (append_unindexed b r))) = b_recs b ++ [r] /\
+    b_idx (blob_from_file K (blob_dump K (append_unindexed b r))) = b_idx b.
+Proof. exact unindexed_then_dump_hides. Qed.
+
+(* ================= (E) the cancelled delete ================= *)
+
+(* the completed delete, as the model has it, is the instance "every closed slot fully processed" of the staged
+   description (plus the request of the index dump): the stages are stages of the modelled operation *)
+Theorem C14_E_completed_delete_is_the_last_stage :
+  forall (K : N) (s : storage) (k ts : N) (meta : option N) (msize : N) (oip : bool),
+    let mk := mk_rec k ts true meta msize 0 0 in
+    exists c' : list (option blob),
+      Forall2 (slot_stage K mk) (s_closed (delete_start s oip)) c' /\
+      same_blobs (upd_closed (delete_active_done K (delete_start s oip) mk oip) c')
+                 (fst (do_delete K s k ts meta msize oip)).
+Proof. exact do_delete_decomp. Qed.
+
+(* the log: slot by slot (closed list, active blob) every blob keeps its id and has its old records, or -- only
+   where Blob::delete applies, i.e. in a subset of the blobs the completed delete marks -- its old records and ONE
+   marker. s0 is s, or s with the active blob created (only_if_presented = false). *)
+Theorem C14_E_delete_log :
+  forall (K : N) (cfg : config) (s : storage) (k ts : N) (meta : option N) (msize : N) (oip : bool) (s' : storage),
+    BlobsOk K s -> s_open s = true ->
+    cancel_outcomes K cfg s (ODelete k ts meta msize oip) s' ->
+    exists s0 : storage,
+      (s0 = s \/ oip = false /\ s0 = ensure_active s) /\
+      Forall2 (orel (marker_ext (mk_rec k ts true meta msize 0 0) true)) (s_closed s0) (s_closed s') /\
+      orel (marker_ext (mk_rec k ts true meta msize 0 0) oip) (s_active s0) (s_active s').
+Proof. exact cancelled_delete_log. Qed.
+
+(* the read of the key in the session: as before the delete, or as after the completed delete -- whatever subset
+   of the blobs has been processed and how far (read with or without metadata) *)
+Theorem C14_E_delete_read_before_or_after :
+  forall (K : N) (cfg : config) (s : storage) (k ts : N) (meta : option N) (msize : N) (oip : bool) (s' : storage),
+    BlobsOk K s -> s_open s = true ->
+    cancel_outcomes K cfg s (ODelete k ts meta msize oip) s' ->
+    forall meta' : option N,
+      get_latest_entry s' k meta' = get_latest_entry s k meta' \/
+      get_latest_entry s' k meta' = get_latest_entry (fst (step K cfg s (ODelete k ts meta msize oip))) k meta'.
+Proof. exact cancelled_delete_read. Qed.
+
+(* computed: two closed blobs hold key 1 (timestamps 7 and 8); a delete with timestamp 8 dropped after it fully
+   processed the older blob only. The marker is in the log, the read is the read before the delete; the completed
+   delete answers Deleted 8. *)
+Theorem C14_E_example_is_an_outcome : cancel_outcomes 4 c_cfg d_state d_op d_out.
+Proof. exact d_out_is_outcome. Qed.
+Theorem C14_E_example :
+  In d_mk (abs d_out) /\ ~ In d_mk (abs d_state) /\
+  get_latest_entry d_out 1 None = get_latest_entry d_state 1 None /\
+  get_latest_entry d_state 1 None = Found (mk_rec 1 8 false None 8 5 2) /\
+  get_latest_entry (fst (step 4 c_cfg d_state d_op)) 1 None = Deleted 8.
+Proof. exact d_out_read. Qed.
+
 (* ---- structural facts re-extracted from the Rust source on every run (tools/extract_src.py, Generated/Facts.v):
    the orderings inside the code that the models used above assume. A change of the code that invalidates one turns
    the generated boolean into `false` and this file no longer compiles. ---- *)
@@ -36,7 +224,29 @@ Theorem C14_source_dump_puts_headers_back : Pearl.Generated.Facts.DUMP_PUTS_HEAD
 Proof. reflexivity. Qed.
 
 Print Assumptions C14_other_keys_untouched.
+Print Assumptions C14_example_is_an_outcome.
+Print Assumptions C14_invisible_in_session.
+Print Assumptions C14_visible_after_drop_and_open.
 Print Assumptions C14_all_or_nothing_at_next_start_refuted.
+Print Assumptions C14_A_no_other_key_affected.
+Print Assumptions C14_B_nothing_harmed.
+Print Assumptions C14_B_append_only.
+Print Assumptions C14_C_later_operations_work.
+Print Assumptions C14_C_no_index_error_afterwards.
+Print Assumptions C14_C_write_acknowledged_afterwards.
+Print Assumptions C14_C_restore_retry.
+Print Assumptions C14_cancellation_safety.
+Print Assumptions C14_cancellation_safety_after_every_history.
+Print Assumptions C14_D_write_log.
+Print Assumptions C14_D_write_not_at_all_in_session.
+Print Assumptions C14_D_write_same_files.
+Print Assumptions C14_D_write_entirely_once_regenerated.
+Print Assumptions C14_D_F18_dump_hides_the_record.
+Print Assumptions C14_E_completed_delete_is_the_last_stage.
+Print Assumptions C14_E_delete_log.
+Print Assumptions C14_E_delete_read_before_or_after.
+Print Assumptions C14_E_example_is_an_outcome.
+Print Assumptions C14_E_example.
 Print Assumptions C14_source_restore_is_atomic.
 Print Assumptions C14_source_close_is_atomic.
 Print Assumptions C14_source_dump_puts_headers_back.
